@@ -144,9 +144,9 @@ type frameSys struct {
 	bufs   [][]int // full backing arrays (len == cap)
 	lens   []int
 	m      map[int]int
-	rs     [][]int        // earlier slice results (headers kept: re-read through the same reference)
-	rm     []map[int]int  // earlier map results
-	rorder []int          // 0: next of rs, 1: next of rm (order of results)
+	rs     [][]int       // earlier slice results (headers kept: re-read through the same reference)
+	rm     []map[int]int // earlier map results
+	rorder []int         // 0: next of rs, 1: next of rm (order of results)
 }
 
 func aliasOf(r []int, bufs [][]int) int {
